@@ -23,7 +23,10 @@ RAWS = ["0.0", "1.5", "(1:2)", "%{}", "%{1: 2}", "'sym", "Int", "Str", "Arr", "O
         "Int.bear({B: m{false}}).new(5)", "Int.bear({B: m{true}}).new(0)", "Str.bear({B: m{true}}).new(\"\")", "Str.bear.new(\"x\")",
         "Arr.bear({B: m{true}}).new([])", "Nil.bear({B: m{true}}).new", "Nil.bear.new", "{a: 1}.bear", "{}.bear({B: true})", "{B: true}.bear",
         "{B: false}.bear({a: 1})", "1.try", "0.try", "nil.try", "1.try.nosuchprop", "1.try.nosuchprop.err", "Float.bear({B: m{false}}).new(1.5)",
-        "{B: m{2}}", "{B: \"yes\"}", "{B: [1]}", "[nil]", "[false]", '"0"', '"false"']
+        "{B: m{2}}", "{B: \"yes\"}", "{B: [1]}", "[nil]", "[false]", '"0"', '"false"',
+        # B raises: it does not yield true, so every construct must treat the value as false (and keep agreeing)
+        "{B: m{Err.new(\"cannot boolify\")}}", "{B: m{1 / 0}}", "{|x| x}", "Func", "m{1}", "{B: m{undefinedname}}"]
+RAISING_B = RAWS[-6:]
 
 
 def constructs(c):
@@ -79,6 +82,18 @@ def run():
         for name, body in constructs(node):
             tagged.append((f"{name}:{txt}", body))
             index.append((vi, name))
+    # mixed && / || chains in both nestings with truthy / falsy operands: which operands run, and which one is returned
+    for shape in ("(a&&b)||c", "(a||b)&&c", "a&&(b||c)", "a||(b&&c)", "((a&&b)||c)&&d", "((a||b)&&c)||d"):
+        nops = 4 if "d" in shape else 3
+        for bits in range(2 ** nops):
+            vals = [Say(Int(k + 1)) if bits >> k & 1 else Say(Int(0) if k % 2 == 0 else Str("")) for k in range(nops)]
+            a, b, c = vals[:3]
+            d = vals[3] if nops == 4 else None
+            e = {"(a&&b)||c": Inf("||", Inf("&&", a, b), c), "(a||b)&&c": Inf("&&", Inf("||", a, b), c), "a&&(b||c)": Inf("&&", a, Inf("||", b, c)),
+                 "a||(b&&c)": Inf("||", a, Inf("&&", b, c)), "((a&&b)||c)&&d": Inf("&&", Inf("||", Inf("&&", a, b), c), d) if d else None,
+                 "((a||b)&&c)||d": Inf("||", Inf("&&", Inf("||", a, b), c), d) if d else None}[shape]
+            tagged.append((f"mixed:{shape}:{bits}", [Say(Arr(e))]))
+            index.append((-1, "mixed"))
     res, st = evalcheck.run_family(ck, "C12", tagged, "constructs")
     ck.cov["paneval"] = st
     # B property of every pool value, and the decision table
@@ -90,8 +105,13 @@ def run():
     for vi, (txt, node) in enumerate(pool):
         b = bout[f"b{vi}"]
         outs = [e for e in b["events"] if e.startswith("out:") and e != "out:9"]
-        if not b["end"].startswith("val:") or len(outs) != 1:
-            continue                        # B raises / is missing: outside the property (conversion-hook errors)
+        if txt in RAISING_B:
+            braises = b["end"].startswith("err:")
+            if not braises:
+                continue
+            outs = ["out:<raises>"]
+        elif not b["end"].startswith("val:") or len(outs) != 1:
+            continue                        # B is missing / aborts otherwise: outside the property
         obs = []
         for name in names:
             rid = keys[[k for k, (v2, n2) in enumerate(index) if v2 == vi and n2 == name][0]]
